@@ -28,7 +28,7 @@ class TrF(Tr):
 
 def _is_logging(st):
     return (isinstance(st, ast.Expr) and isinstance(st.value, ast.Call)
-            and src(st.value.func) in ('logging.debug', 'logging.info', 'logging.warning'))
+            and src(st.value.func) in ('logging.debug', 'logging.info', 'logging.warning', 'logging.error'))
 
 
 def _skip_guard(st, tr, what):
@@ -215,24 +215,74 @@ def gen_aeres(repo):
     if not wr or wr[0] != 'hdulist[0].data = residual':
         raise TranslateError("make_residual: residual is not what is written first")
 
-    # ---- load_sources: which user-named column becomes which catalogue field
+    # ---- load_sources: which user-named column becomes which catalogue field.
+    # Accepted shape (anything else is refused):
+    #   required_cols = [<six parameters>]
+    #   for c in required_cols: if c not in table.colnames: .. good = False      ;  if not good: .. return None
+    #   new_cols = [<six names>]
+    #   picked = [table[c].copy() for c in required_cols]
+    #   table.remove_columns([c for c in table.colnames if c in required_cols + new_cols])
+    #   for col, new in zip(picked, new_cols): table.add_column(col, name=new)
+    #   catalog = catalogs.table_to_source_list(table)
     ls = find_func(tree, 'load_sources')
     params = [a.arg for a in ls.args.args]
     defaults = [ast.literal_eval(d) for d in ls.args.defaults]
     if params[0] != 'filename' or len(defaults) != len(params) - 1:
         raise TranslateError("load_sources: signature")
-    fors = [n for n in ls.body if isinstance(n, ast.For) and isinstance(n.iter, ast.Call) and src(n.iter.func) == 'zip']
-    if len(fors) != 1 or src(fors[0].target) != '(old, new)' or [src(s) for s in fors[0].body] != ['table.rename_column(old, new)']:
-        raise TranslateError("load_sources: expected `for old, new in zip([..], [..]): table.rename_column(old, new)`")
-    z = fors[0].iter.args
-    if len(z) != 2 or not all(isinstance(e, ast.List) for e in z) or not all(isinstance(e, ast.Name) for e in z[0].elts):
-        raise TranslateError("load_sources: zip arguments")
-    ren_from = [e.id for e in z[0].elts]
-    ren_to = [ast.literal_eval(e) for e in z[1].elts]
-    if not set(ren_from) <= set(params[1:]):
-        raise TranslateError("load_sources: renamed columns are not parameters")
-    if not any(src(n) == 'catalog = catalogs.table_to_source_list(table)' for n in ls.body):
+    lbody = strip_doc(ls.body)
+
+    def one(pred, what):
+        found = [s for s in lbody if pred(s)]
+        if len(found) != 1:
+            raise TranslateError(f"load_sources: expected exactly one top-level statement `{what}`, found {len(found)}")
+        return found[0]
+
+    def assigns(name):
+        return lambda s: isinstance(s, ast.Assign) and len(s.targets) == 1 and src(s.targets[0]) == name
+    rc = one(assigns('required_cols'), 'required_cols = [..]')
+    if not (isinstance(rc.value, ast.List) and all(isinstance(e, ast.Name) for e in rc.value.elts)):
+        raise TranslateError("load_sources: required_cols is not a list of parameters")
+    ren_from = [e.id for e in rc.value.elts]
+    if not set(ren_from) <= set(params[1:]) or len(set(ren_from)) != len(ren_from):
+        raise TranslateError("load_sources: required_cols are not distinct parameters")
+    chk = one(lambda s: isinstance(s, ast.For) and src(s.iter) == 'required_cols' and src(s.target) == 'c', 'for c in required_cols')
+    if not (len(chk.body) == 1 and isinstance(chk.body[0], ast.If) and src(chk.body[0].test) == 'c not in table.colnames'
+            and not chk.body[0].orelse and src(chk.body[0].body[-1]) == 'good = False'
+            and all(_is_logging(s) or src(s) == 'good = False' for s in chk.body[0].body)):
+        raise TranslateError("load_sources: the missing-column test is not `if c not in table.colnames: .. good = False`")
+    bad = one(lambda s: isinstance(s, ast.If) and src(s.test) == 'not good', 'if not good')
+    if not (src(bad.body[-1]) == 'return None' and all(_is_logging(s) for s in bad.body[:-1]) and not bad.orelse):
+        raise TranslateError("load_sources: `if not good` does not return None")
+    nc = one(assigns('new_cols'), 'new_cols = [..]')
+    try:
+        ren_to = [str(x) for x in ast.literal_eval(nc.value)]
+    except ValueError:
+        raise TranslateError("load_sources: new_cols is not a list of literals")
+    if len(ren_to) != len(ren_from):
+        raise TranslateError("load_sources: required_cols and new_cols differ in length")
+    pk = one(assigns('picked'), 'picked = [..]')
+    if src(pk.value) != '[table[c].copy() for c in required_cols]':
+        raise TranslateError(f"load_sources: picked = {src(pk.value)}")
+    rm = one(lambda s: isinstance(s, ast.Expr) and isinstance(s.value, ast.Call) and src(s.value.func) == 'table.remove_columns',
+             'table.remove_columns(..)')
+    if src(rm.value) != 'table.remove_columns([c for c in table.colnames if c in required_cols + new_cols])':
+        raise TranslateError(f"load_sources: {src(rm.value)}")
+    ad = one(lambda s: isinstance(s, ast.For) and isinstance(s.iter, ast.Call) and src(s.iter.func) == 'zip', 'for .. in zip(..)')
+    if not (src(ad.target) == '(col, new)' and src(ad.iter) == 'zip(picked, new_cols)'
+            and [src(s) for s in ad.body] == ['table.add_column(col, name=new)'] and not ad.orelse):
+        raise TranslateError("load_sources: expected `for col, new in zip(picked, new_cols): table.add_column(col, name=new)`")
+    cat = one(assigns('catalog'), 'catalog = ..')
+    if src(cat.value) != 'catalogs.table_to_source_list(table)':
         raise TranslateError("load_sources: table_to_source_list(table) not used")
+    order = [lbody.index(s) for s in (rc, chk, bad, nc, pk, rm, ad, cat)]
+    if order != sorted(order) or lbody.index(nc) > lbody.index(pk):
+        raise TranslateError("load_sources: statements are not in the order check / pick / remove / add / convert")
+    # no other statement may touch the table
+    for s in lbody:
+        if s in (rc, chk, bad, nc, pk, rm, ad, cat) or _is_logging(s) or isinstance(s, ast.Return) or src(s) == 'good = True' \
+                or src(s) == 'table = catalogs.load_table(filename)':
+            continue
+        raise TranslateError(f"load_sources: unexpected statement {src(s)[:70]}")
     strs = lambda xs: '[' + '; '.join(f'"{x}"' for x in xs) + ']'   # noqa: E731
 
     SA = 'ra dec a b pa'
@@ -273,7 +323,9 @@ Definition finite_guard : bool := {finite_guard}.
 (* make_residual *)
 Definition residual_px (add mask : bool) (data model : R) : R := if {rcond} then {r_then} else {r_else}.
 
-(* load_sources: parameters, their defaults, and the rename pairing *)
+(* load_sources: parameters, their defaults, and the pairing requested column -> catalogue field
+   (the requested columns are copied, every column named like a requested or a catalogue column is
+   removed, the copies are added under the catalogue names; a missing requested column returns None) *)
 Local Open Scope string_scope.
 Definition load_params : list string := {strs(params[1:])}.
 Definition load_defaults : list string := {strs(defaults)}.
